@@ -28,7 +28,8 @@ NCPU = os.cpu_count() or 4
 
 BASE_FLAGS = ["-std=c++14", "-DOSMIUM_WITH_LZ4", "-D_FILE_OFFSET_BITS=64", "-D_LARGEFILE_SOURCE",
               "-D" + GUARD, "-Wno-deprecated-declarations", "-Wno-parentheses", "-g1",
-              "-I" + os.path.join(REPO, "include"), "-I" + os.path.join(VERIF, "engine")]
+              "-I" + os.path.join(REPO, "include"), "-I" + os.path.join(VERIF, "engine"),
+              "-include", os.path.join(VERIF, "engine", "driver", "hook_default.hpp")]
 BASE_LIBS = ["-lz", "-lbz2", "-lexpat", "-llz4", "-lpthread"]
 
 
@@ -135,6 +136,27 @@ class Ctx:
                 except OSError:
                     pass
         return exe
+
+    def build_obj(self, name, source, flags=(), opt="-O2", compiler="g++"):
+        """Compile one engine source into an object file (no sanitizer, no default hook)."""
+        src = source if os.path.isabs(source) else os.path.join(VERIF, source)
+        allflags = [f for f in BASE_FLAGS if f != "-DNDEBUG"] + [opt, "-DVERIF_NO_DEFAULT_HOOK", "-fPIC"] + list(flags)
+        key = hashlib.sha1(json.dumps([file_hash([src]), tree_hash(os.path.dirname(src)), allflags, compiler]).encode()).hexdigest()[:20]
+        os.makedirs(BUILD, exist_ok=True)
+        obj = os.path.join(BUILD, "obj-%s-%s.o" % (name, key))
+        if os.path.exists(obj):
+            os.utime(obj)
+            return obj
+        tmp = obj + ".tmp%d.o" % os.getpid()
+        cmd = [compiler] + allflags + ["-c", src, "-o", tmp]
+        r = subprocess.run(cmd, stdout=subprocess.PIPE, stderr=subprocess.STDOUT, text=True)
+        if r.returncode != 0:
+            raise BuildError("build of %s failed:\n%s\n%s" % (name, " ".join(cmd), r.stdout[-6000:]))
+        os.rename(tmp, obj)
+        return obj
+
+    def vsched_obj(self):
+        return self.build_obj("vsched", "engine/vsched/vsched.cpp")
 
     def build_many(self, specs):
         """specs: list of dict(kwargs for build). Builds in parallel; returns list of exes."""
